@@ -5,6 +5,8 @@
 
 package size
 
+import "go.lstv.dev/util/internal"
+
 //@ config MaxInputLength
 //@ domain MaxInputLength >= 0
 //@ config MaxObjectKeys
@@ -109,13 +111,28 @@ package size
 // ---- C08 / C04: text parsing -------------------------------------------------------------------------------------------
 // prepareNumber is a pure function of the text; what it returns for every text is pinned by these clauses, and
 // what it returns for the texts the statement describes is established by the bounded lemmas below.
+// dcount(w, i): how many of the first i bytes of w are digits. skipRun(w): the leading run of digits and spaces.
+// For a text whose run ends at its end or at an ASCII byte that is not skipped there, prepareNumber's number is the
+// digit subsequence of the run and its unit is the rest (less one trailing space); if the run holds digits only the
+// number is the run itself.
+//@ rec func dcount(w bytes, i int) int = ite(i <= 0, 0, dcount(w, i-1) + ite(isDigit(w[i-1]), 1, 0))
+//@ pure func skipRun(w bytes) int = leadRun(w, '0', '1', '2', '3', '4', '5', '6', '7', '8', '9', ' ')
+//@ pure func digitRun(w bytes) int = leadRun(w, '0', '1', '2', '3', '4', '5', '6', '7', '8', '9')
+//@ pure func stopOK(w bytes) bool = skipRun(w) == len(w) || (w[skipRun(w)] < 128 && (w[skipRun(w)] != '_' || dcount(w, skipRun(w)) == 0))
+//@ pure func trimmed(w bytes, q int) bytes = ite(q < len(w) && w[len(w)-1] == ' ', w[q:len(w)-1], w[q:])
 //@ func prepareNumber
 //@   pure
 //@   ensures [C08.prep] forall i in 0..len(number) :: isDigit(number[i])
 //@   ensures [C08.prep] len(unit) <= len(input)
+//@   ensures [C08.prep C04.prep] stopOK(input) ==> len(number) == dcount(input, skipRun(input)) && unit == trimmed(input, skipRun(input))
+//@   ensures [C08.prep C04.prep] stopOK(input) ==> forall j in 0..skipRun(input) :: isDigit(input[j]) ==> dcount(input, j) < len(number) && number[dcount(input, j)] == input[j]
+//@   ensures [C08.prep C04.prep] stopOK(input) && digitRun(input) == skipRun(input) ==> number == input[0:digitRun(input)]
 //@   loop 0 invariant 0 <= rangePos() && rangePos() <= len(input)
 //@   loop 0 invariant forall i in 0..len(theBuilder()) :: isDigit(theBuilder()[i])
 //@   loop 0 invariant fresh(theBuilder()) && heapSame()
+//@   loop 0 invariant stopOK(input) ==> rangePos() <= skipRun(input) && len(theBuilder()) == dcount(input, rangePos())
+//@   loop 0 invariant stopOK(input) ==> forall j in 0..rangePos() :: dcount(input, j) <= dcount(input, rangePos()) && (isDigit(input[j]) ==> dcount(input, j) < dcount(input, rangePos()) && theBuilder()[dcount(input, j)] == input[j])
+//@   loop 0 invariant stopOK(input) && rangePos() <= digitRun(input) ==> dcount(input, rangePos()) == rangePos() && theBuilder() == input[0:rangePos()]
 
 // unmarshalText: the number's digits must parse as an unsigned 64-bit decimal; a unit, if any, must be allowed
 // and known, and number x multiplier must fit.
@@ -141,7 +158,7 @@ package size
 //@ pure func keyPos(d decoder) bool = decDepth(d) == 1 && decInObj(d) && decAtKey(d)
 
 // the tokens a helper consumes are not member keys of the top-level object
-//@ pure func noKeys(d decoder, from int, to int) bool = (forall j in from..to :: !tokIsKey(d, j)) && tokNKeys(d, to) == tokNKeys(d, from)
+//@ pure func noKeys(d decoder, from int, to int) bool = (forall j in from..to :: !tokIsKey(d, j) && !tokIsClose(d, j)) && tokNKeys(d, to) == tokNKeys(d, from)
 //@ pure func isValKey(d decoder, j int) bool = tokIsKey(d, j) && lowerIs(tokText(d, j), "value")
 //@ pure func isUnitKey(d decoder, j int) bool = tokIsKey(d, j) && lowerIs(tokText(d, j), "unit")
 
@@ -152,6 +169,8 @@ package size
 //@   ensures [C12.member] r1 == nil ==> keyPos(d) && decPos(d) == old(decPos(d)) + 1
 //@   ensures [C12.member] r1 != nil ==> r0 == nil && memberErr(r1)
 //@   ensures [C12.type] old(decPos(d)) < decNTok(d) && tokKind(d, old(decPos(d))) != 6 ==> errIs(r1, ErrInvalidType)
+//@   ensures [C12.cause] r1 != nil ==> (errData(r1, "origin") == 1 && decPos(d) == decNTok(d)) || (errIs(r1, ErrInvalidType) && old(decPos(d)) < decNTok(d) && tokKind(d, old(decPos(d))) != 6 && decPos(d) == old(decPos(d)) + 1)
+//@       || (errData(r1, "origin") == 2 && old(decPos(d)) < decNTok(d) && tokKind(d, old(decPos(d))) == 6 && !decOK(tokText(d, old(decPos(d)))) && decPos(d) == old(decPos(d)) + 1)
 //@   assigns decoder(d)
 
 //@ func decodeUnit
@@ -161,6 +180,7 @@ package size
 //@   ensures [C12.member] r1 == nil ==> keyPos(d) && decPos(d) == old(decPos(d)) + 1
 //@   ensures [C12.member] r1 != nil ==> r0 == nil && memberErr(r1)
 //@   ensures [C12.type] old(decPos(d)) < decNTok(d) && tokKind(d, old(decPos(d))) != 5 ==> errIs(r1, ErrInvalidType)
+//@   ensures [C12.cause] r1 != nil ==> (errData(r1, "origin") == 1 && decPos(d) == decNTok(d)) || (errIs(r1, ErrInvalidType) && old(decPos(d)) < decNTok(d) && tokKind(d, old(decPos(d))) != 5 && decPos(d) == old(decPos(d)) + 1)
 //@   assigns decoder(d)
 
 // skipping a member value of any nesting: on success the cursor is back at a key of the same object
@@ -169,6 +189,7 @@ package size
 //@   ensures [C12.skip] result == nil ==> keyPos(d) && decPos(d) > old(decPos(d))
 //@   ensures [C12.skip] noKeys(d, old(decPos(d)), decPos(d))
 //@   ensures [C12.skip] memberErr(result)
+//@   ensures [C12.cause] result != nil ==> errData(result, "origin") == 1 && decPos(d) == decNTok(d)
 //@   assigns decoder(d)
 //@   loop 0 invariant depth >= 1 && depth <= decPos(d)
 //@   loop 0 invariant decDepth(d) == 1 + depth
@@ -184,13 +205,37 @@ package size
 //@ pure func sizeOfPair(res Size, v uint64, u string) bool = ite(v == 0, unitZeroOK(u) && res == 0, (u == "" || unitKnown(u)) && mulFits64(v, multOf(u)) && mathint(res) == mathint(v) * mathint(multOf(u)))
 //@ pure func valMember(d decoder, j int, v uint64) bool = isValKey(d, j) && tokKind(d, j+1) == 6 && decOK(tokText(d, j+1)) && v == decVal(tokText(d, j+1))
 //@ pure func unitMember(d decoder, j int, u string) bool = isUnitKey(d, j) && tokKind(d, j+1) == 5 && u == tokText(d, j+1)
+// Helper predicates over the document w.
+//@ pure func wValKey(w bytes, j int) bool = docIsKey(w, j) && lowerIs(docText(w, j), "value")
+//@ pure func wUnitKey(w bytes, j int) bool = docIsKey(w, j) && lowerIs(docText(w, j), "unit")
+//@ pure func wValMember(w bytes, j int) bool = wValKey(w, j) && docKind(w, j+1) == 6 && decOK(docText(w, j+1))
+//@ pure func wUnitMember(w bytes, j int) bool = wUnitKey(w, j) && docKind(w, j+1) == 5
+//@ pure func pairOK(v uint64, u string) bool = ite(v == 0, unitZeroOK(u), (u == "" || unitKnown(u)) && mulFits64(v, multOf(u)))
+// every rejection of an object has a cause in the document (the converse of acceptance), stated over all its tokens:
+// level-1 keys only exist before the object's closing brace
+// inObject(w, from, j): token j lies before the closing brace of the object whose members start at token `from`
+//@ pure func inObject(w bytes, from int, j int) bool = forall c in from..j+1 :: !docIsClose(w, c)
+//@ pure func docCause(w bytes, from int, r Rule, e error) bool =
+//@        (errIs(e, ErrObjectTooBig) && MaxObjectKeys != 0 && exists to in from..docNTok(w)+1 :: docNKeys(w, to) - docNKeys(w, from) > MaxObjectKeys)
+//@     || (errData(e, "origin") == 1 && (docGarbage(w) || forall j in from..docNTok(w) :: !docIsClose(w, j)))
+//@     || (errIs(e, ErrDuplicatedValueKey) && exists j in from..docNTok(w) :: exists k in from..docNTok(w) :: j != k && wValKey(w, j) && wValKey(w, k))
+//@     || (errIs(e, ErrDuplicatedUnitKey) && exists j in from..docNTok(w) :: exists k in from..docNTok(w) :: j != k && wUnitKey(w, j) && wUnitKey(w, k))
+//@     || (errIs(e, ErrInvalidType) && exists j in from..docNTok(w) :: j+1 < docNTok(w) && ((wValKey(w, j) && docKind(w, j+1) != 6) || (wUnitKey(w, j) && docKind(w, j+1) != 5)))
+//@     || (errData(e, "origin") == 2 && exists j in from..docNTok(w) :: wValKey(w, j) && j+1 < docNTok(w) && docKind(w, j+1) == 6 && !decOK(docText(w, j+1)))
+//@     || (errIs(e, ErrUnexpectedKey) && r&RuleDisallowUnknownKeys != 0 && exists j in from..docNTok(w) :: docIsKey(w, j) && !wValKey(w, j) && !wUnitKey(w, j))
+//@     || (errIs(e, ErrMissingValueKey) && forall j in from..docNTok(w) :: inObject(w, from, j) ==> !wValKey(w, j))
+//@     || (errIs(e, ErrMissingUnitKey) && forall j in from..docNTok(w) :: inObject(w, from, j) ==> !wUnitKey(w, j))
+//@     || (exists jv in from..docNTok(w) :: exists ju in from..docNTok(w) :: wValMember(w, jv) && wUnitMember(w, ju) && !pairOK(decVal(docText(w, jv+1)), docText(w, ju+1)))
+//@     || (errIs(e, ErrUnexpectedData) && exists c in from..docNTok(w)-1 :: docIsClose(w, c))
 //@ func unmarshalJSONObject
 //@   requires keyPos(d)
 //@   ghost p0 = decPos(d)
+//@   ensures [C12.cause] r1 != nil ==> docCause(decDoc(d), p0, r, r1)
+//@   ensures [C12.cause] forall j in p0..decPos(d) :: !tokIsClose(d, j)
 //@   ensures [C12.object] r1 == nil ==> exists jv in p0..decPos(d) :: exists ju in p0..decPos(d) :: valMember(d, jv, decVal(tokText(d, jv+1))) && unitMember(d, ju, tokText(d, ju+1)) && sizeOfPair(r0, decVal(tokText(d, jv+1)), tokText(d, ju+1)) && (forall k in p0..decPos(d) :: k != jv ==> !isValKey(d, k)) && (forall k in p0..decPos(d) :: k != ju ==> !isUnitKey(d, k))
 //@   ensures [C12.unknown] r1 == nil && r&RuleDisallowUnknownKeys != 0 ==> forall j in p0..decPos(d) :: tokIsKey(d, j) ==> isValKey(d, j) || isUnitKey(d, j)
 //@   ensures [C12.maxkeys] r1 == nil && MaxObjectKeys != 0 ==> tokNKeys(d, decPos(d)) - tokNKeys(d, p0) <= MaxObjectKeys
-//@   ensures [C12.end] r1 == nil ==> keyPos(d) && ((decPos(d) < decNTok(d) && tokKind(d, decPos(d)) == 2) || (decPos(d) == decNTok(d) && !decGarbage(d)))
+//@   ensures [C12.end] r1 == nil ==> keyPos(d) && ((decPos(d) < decNTok(d) && tokKind(d, decPos(d)) == 2) || decPos(d) == decNTok(d))
 //@   ensures [C12.errors] errIs(r1, ErrObjectTooBig) ==> MaxObjectKeys != 0 && tokNKeys(d, decPos(d)) - tokNKeys(d, p0) > MaxObjectKeys
 //@   ensures [C12.errors] errIs(r1, ErrMissingValueKey) ==> forall j in p0..decPos(d) :: !isValKey(d, j)
 //@   ensures [C12.errors] errIs(r1, ErrMissingUnitKey) ==> forall j in p0..decPos(d) :: !isUnitKey(d, j)
@@ -198,6 +243,7 @@ package size
 //@   ensures [C18.limit] !errIs(r1, ErrInputTooLong)
 //@   assigns decoder(d)
 //@   loop 0 invariant keyPos(d) && p0 <= decPos(d) && i >= 0
+//@   loop 0 invariant forall j in p0..decPos(d) :: !tokIsClose(d, j)
 //@   loop 0 invariant i == tokNKeys(d, decPos(d)) - tokNKeys(d, p0)
 //@   loop 0 invariant i <= decPos(d) - p0
 //@   loop 0 invariant value == nil ==> forall j in p0..decPos(d) :: !isValKey(d, j)
@@ -218,15 +264,12 @@ package size
 //@ func expectEnd
 //@   ensures [C12.single] result == nil <==> old(decPos(d)) == decNTok(d) && !decGarbage(d)
 //@   ensures [C12.single] old(decPos(d)) < decNTok(d) ==> errIs(result, ErrUnexpectedData)
+//@   ensures [C12.cause] result != nil && old(decPos(d)) == decNTok(d) ==> errData(result, "origin") == 1 && decGarbage(d)
 //@   ensures [C18.limit] !errIs(result, ErrInputTooLong)
 //@   assigns decoder(d)
 
 // The whole document, as the parser's caller sees it: `w` is the input text, its tokens are docKind/docText,
 // docNTok counts the well-formed tokens and docGarbage says whether anything that is not a token follows them.
-//@ pure func wValKey(w bytes, j int) bool = docIsKey(w, j) && lowerIs(docText(w, j), "value")
-//@ pure func wUnitKey(w bytes, j int) bool = docIsKey(w, j) && lowerIs(docText(w, j), "unit")
-//@ pure func wValMember(w bytes, j int) bool = wValKey(w, j) && docKind(w, j+1) == 6 && decOK(docText(w, j+1))
-//@ pure func wUnitMember(w bytes, j int) bool = wUnitKey(w, j) && docKind(w, j+1) == 5
 //@ pure func single(w bytes) bool = docNTok(w) == 1 && !docGarbage(w)
 // number and string forms: exactly one token, read by the text rules with no rule flag
 //@ pure func scalarOutcome(w bytes, res Size, err error) bool = (err == nil <==> single(w) && txtOK(docText(w, 0), 0))
@@ -241,6 +284,7 @@ package size
 //@               && (forall k in 1..docNTok(w)-1 :: k != jv ==> !wValKey(w, k)) && (forall k in 1..docNTok(w)-1 :: k != ju ==> !wUnitKey(w, k)))
 //@         && (r&RuleDisallowUnknownKeys != 0 ==> forall j in 1..docNTok(w)-1 :: docIsKey(w, j) ==> wValKey(w, j) || wUnitKey(w, j))
 //@         && (MaxObjectKeys != 0 ==> docNKeys(w, docNTok(w)-1) - docNKeys(w, 1) <= MaxObjectKeys))
+//@     && (err != nil && r&RuleEnableJSONObjectForm != 0 ==> docCause(w, 1, r, err))
 //@ pure func jsonOutcome(w bytes, r Rule, res Size, err error) bool = (docNTok(w) == 0 ==> err != nil)
 //@     && (docNTok(w) >= 1 && docKind(w, 0) == 6 ==> scalarOutcome(w, res, err))
 //@     && (docNTok(w) >= 1 && docKind(w, 0) == 5 && r&RuleEnableJSONStringForm != 0 ==> scalarOutcome(w, res, err))
@@ -271,7 +315,7 @@ package size
 
 //@ func (*Size).UnmarshalJSON
 //@   ensures [C17.recv] result != nil ==> *s == old(*s)
-//@   ensures [C12.forms] withinLimit(len(data)) && DefaultRule&(RuleEnableJSONStringForm|RuleEnableJSONObjectForm) != 0 ==> jsonOutcome(data, DefaultRule, *s, result) || result != nil
+//@   ensures [C12.forms] withinLimit(len(data)) && DefaultRule&(RuleEnableJSONStringForm|RuleEnableJSONObjectForm) != 0 ==> jsonOutcome(data, DefaultRule, ite(result == nil, *s, 0), result)
 //@   ensures [C17.input] heapSame()
 //@   assigns *s
 
@@ -296,6 +340,300 @@ package size
 //@   ensures [C08.bytes] ok ==> numIsNat64(value) && numToU64(value) == uint64(s)
 //@   ensures [C08.bytes] !ok ==> numIsZero(value)
 
+// ---- C04: round trips, as lemmas over the contracts above --------------------------------------------------------------
+// The longest marshalled form is the object with a 20-digit value (41 bytes); the lemmas assume the input limit admits it.
+// Stage 1/2: the marshalled text is the digits of the (shortened) value, then, unless units are disabled, the unit;
+// parsing it back under a rule that allows units (DefaultRule by default) gives the size.
+//@ pure func tValue(s Size, plain bool) uint64 = ite(plain, uint64(s), shVal(uint64(s)))
+//@ pure func textValue(s Size) uint64 = tValue(s, DisableMarshalTextUnit)
+//@ pure func tUnit(s Size, plain bool) bytes = ite(plain, "", binUnit(shExp(uint64(s))))
+//@ pure func textUnit(s Size) bytes = tUnit(s, DisableMarshalTextUnit)
+//@ func shapeText
+//@   lemma
+//@   ensures [C04.text] b == decText(textValue(s)) ++ textUnit(s) && len(b) <= 23
+//@ func lemmaC04Text
+//@   lemma
+//@   requires MaxInputLength == 0 || MaxInputLength >= 41
+//@   requires DefaultRule&RuleDisableUnit == 0
+//@   ensures [C04.text] err == nil && got == s
+
+func shapeText(s Size) (b []byte) {
+	b, _ = s.MarshalText()
+	return b
+}
+
+func lemmaC04Text(s Size) (got Size, err error) {
+	b := shapeText(s)
+	lemmaScalarText(b, s, DisableMarshalTextUnit)
+	err = got.UnmarshalText(b)
+	return got, err
+}
+
+// Assumed (trusted) facts about encoding/json's tokenizer, for exactly the three shapes MarshalJSON emits: a canonical
+// decimal number; a quoted string of plain characters (printable ASCII other than quote and backslash); the object
+// {"value":<canonical number>,"unit":"<plain text>"}. They say which tokens json.Decoder.Token delivers for such a text.
+//@ pure func plainChar(c byte) bool = 32 <= c && c < 127 && c != '"' && c != 92
+//@ pure func plainText(u bytes) bool = forall i in 0..len(u) :: plainChar(u[i])
+//@ pure func canonicalNumber(d bytes) bool = len(d) >= 1 && (forall i in 0..len(d) :: isDigit(d[i])) && (len(d) == 1 || d[0] != '0')
+//@ func axiomJSONNumber
+//@   trusted
+//@   requires canonicalNumber(w)
+//@   ensures docNTok(w) == 1 && !docGarbage(w) && docKind(w, 0) == 6 && docText(w, 0) == w
+//@ func axiomJSONString
+//@   trusted
+//@   requires len(w) >= 2 && w[0] == '"' && w[len(w)-1] == '"' && plainText(w[1:len(w)-1])
+//@   ensures docNTok(w) == 1 && !docGarbage(w) && docKind(w, 0) == 5 && docText(w, 0) == w[1:len(w)-1]
+//@ func axiomJSONObject
+//@   trusted
+//@   requires w == "{\"value\":" ++ d ++ ",\"unit\":\"" ++ u ++ "\"}" && canonicalNumber(d) && plainText(u)
+//@   ensures docNTok(w) == 6 && !docGarbage(w)
+//@   ensures docKind(w, 0) == 1 && docKind(w, 1) == 5 && docKind(w, 2) == 6 && docKind(w, 3) == 5 && docKind(w, 4) == 5 && docKind(w, 5) == 2
+//@   ensures docText(w, 1) == "value" && docText(w, 2) == d && docText(w, 3) == "unit" && docText(w, 4) == u
+//@   ensures !docIsKey(w, 0) && docIsKey(w, 1) && !docIsKey(w, 2) && docIsKey(w, 3) && !docIsKey(w, 4) && !docIsKey(w, 5)
+//@   ensures docIsClose(w, 5) && !docIsClose(w, 0) && !docIsClose(w, 1) && !docIsClose(w, 2) && !docIsClose(w, 3) && !docIsClose(w, 4)
+//@   ensures docNKeys(w, 5) - docNKeys(w, 1) == 2 && forall to in 1..7 :: docNKeys(w, to) - docNKeys(w, 1) <= 2
+
+func axiomJSONNumber(w []byte)       {}
+func axiomJSONString(w []byte)       {}
+func axiomJSONObject(w, d, u []byte) {}
+
+// a text that is a canonical decimal number is its own digit run
+//@ func lemmaDigitsShape
+//@   lemma
+//@   requires w == decText(v)
+//@   ensures [C04.json] digitRun(w) == len(w) && skipRun(w) == len(w) && stopOK(w) && len(w) <= 20 && canonicalNumber(w)
+
+func lemmaDigitsShape(w []byte, v uint64) {}
+
+// Stage 2b: reading a text t that is the digits of a value followed by a binary unit (or by nothing) under a rule
+// word that allows units gives value x multiplier: stated over any such t, so that it applies to a token's text.
+//@ func lemmaScalarText
+//@   lemma
+//@   requires t == decText(tValue(s, plain)) ++ tUnit(s, plain)
+//@   ensures [C04.text] txtOK(t, 0) && mathint(txtValue(t)) == mathint(uint64(s))
+
+func lemmaScalarText(t []byte, s Size, plain bool) {
+	lemmaTextShape(t, s, plain)
+	number, _ := prepareNumber(string(t))
+	v := uint64(s)
+	if !plain {
+		v, _ = s.Shorten()
+	}
+	internal.LemmaParseFormat([]byte(number), v)
+}
+
+//@ func lemmaTextShape
+//@   lemma
+//@   requires t == decText(tValue(s, plain)) ++ tUnit(s, plain)
+//@   ensures [C04.text] digitRun(t) == nDigits(tValue(s, plain)) && skipRun(t) == nDigits(tValue(s, plain)) && stopOK(t) && len(t) <= 23
+//@   ensures [C04.text] t[0:nDigits(tValue(s, plain))] == decText(tValue(s, plain)) && trimmed(t, nDigits(tValue(s, plain))) == tUnit(s, plain)
+
+func lemmaTextShape(t []byte, s Size, plain bool) {}
+
+// The renderings String() and PrettyString() also read back: the plain one is digits then unit; the pretty one has a
+// space after every third digit counted from the right and before the unit, which prepareNumber skips, so that its
+// number is the digit subsequence (dcount) of the run. prettyPos(k, n): the index of the k-th of n digits.
+//@ pure func prettyPos(k int, n int) int = k + fdiv(n-1, 3) - fdiv(n-1-k, 3)
+//@ func lemmaPrettyShape
+//@   lemma
+//@   requires t == rendering(s, FormatPretty)
+//@   ensures [C04.string] skipRun(t) == nDigits(shVal(uint64(s))) + fdiv(nDigits(shVal(uint64(s)))-1, 3) + 1 && stopOK(t) && len(t) <= 30
+//@   ensures [C04.string] dcount(t, skipRun(t)) == nDigits(shVal(uint64(s))) && trimmed(t, skipRun(t)) == binUnit(shExp(uint64(s)))
+//@   ensures [C04.string] forall k in 0..20 :: k < nDigits(shVal(uint64(s))) ==> dcount(t, prettyPos(k, nDigits(shVal(uint64(s))))) == k && t[prettyPos(k, nDigits(shVal(uint64(s))))] == decText(shVal(uint64(s)))[k]
+//@   split nd: nDigits(shVal(uint64(s))) == 1
+//@   split nd: nDigits(shVal(uint64(s))) == 2
+//@   split nd: nDigits(shVal(uint64(s))) == 3
+//@   split nd: nDigits(shVal(uint64(s))) == 4
+//@   split nd: nDigits(shVal(uint64(s))) == 5
+//@   split nd: nDigits(shVal(uint64(s))) == 6
+//@   split nd: nDigits(shVal(uint64(s))) == 7
+//@   split nd: nDigits(shVal(uint64(s))) == 8
+//@   split nd: nDigits(shVal(uint64(s))) == 9
+//@   split nd: nDigits(shVal(uint64(s))) == 10
+//@   split nd: nDigits(shVal(uint64(s))) == 11
+//@   split nd: nDigits(shVal(uint64(s))) == 12
+//@   split nd: nDigits(shVal(uint64(s))) == 13
+//@   split nd: nDigits(shVal(uint64(s))) == 14
+//@   split nd: nDigits(shVal(uint64(s))) == 15
+//@   split nd: nDigits(shVal(uint64(s))) == 16
+//@   split nd: nDigits(shVal(uint64(s))) == 17
+//@   split nd: nDigits(shVal(uint64(s))) == 18
+//@   split nd: nDigits(shVal(uint64(s))) == 19
+//@   split nd: nDigits(shVal(uint64(s))) == 20
+//@ func lemmaPrettyText
+//@   lemma
+//@   requires t == rendering(s, FormatPretty)
+//@   ensures [C04.string] txtOK(t, 0) && mathint(txtValue(t)) == mathint(uint64(s))
+//@   split nd: nDigits(shVal(uint64(s))) == 1
+//@   split nd: nDigits(shVal(uint64(s))) == 2
+//@   split nd: nDigits(shVal(uint64(s))) == 3
+//@   split nd: nDigits(shVal(uint64(s))) == 4
+//@   split nd: nDigits(shVal(uint64(s))) == 5
+//@   split nd: nDigits(shVal(uint64(s))) == 6
+//@   split nd: nDigits(shVal(uint64(s))) == 7
+//@   split nd: nDigits(shVal(uint64(s))) == 8
+//@   split nd: nDigits(shVal(uint64(s))) == 9
+//@   split nd: nDigits(shVal(uint64(s))) == 10
+//@   split nd: nDigits(shVal(uint64(s))) == 11
+//@   split nd: nDigits(shVal(uint64(s))) == 12
+//@   split nd: nDigits(shVal(uint64(s))) == 13
+//@   split nd: nDigits(shVal(uint64(s))) == 14
+//@   split nd: nDigits(shVal(uint64(s))) == 15
+//@   split nd: nDigits(shVal(uint64(s))) == 16
+//@   split nd: nDigits(shVal(uint64(s))) == 17
+//@   split nd: nDigits(shVal(uint64(s))) == 18
+//@   split nd: nDigits(shVal(uint64(s))) == 19
+//@   split nd: nDigits(shVal(uint64(s))) == 20
+//@ func lemmaC04String
+//@   lemma
+//@   requires MaxInputLength == 0 || MaxInputLength >= 41
+//@   requires DefaultRule&RuleDisableUnit == 0
+//@   ensures [C04.string] err1 == nil && got1 == s && err2 == nil && got2 == s
+
+func lemmaPrettyShape(t []byte, s Size) {}
+
+func lemmaPrettyText(t []byte, s Size) {
+	lemmaPrettyShape(t, s)
+	number, _ := prepareNumber(string(t))
+	v, _ := s.Shorten()
+	internal.LemmaParseFormat([]byte(number), v)
+}
+
+func lemmaC04String(s Size) (got1, got2 Size, err1, err2 error) {
+	plain := shapeString(s)
+	lemmaScalarText(plain, s, false)
+	err1 = got1.UnmarshalText(plain)
+	pretty := []byte(s.PrettyString())
+	lemmaPrettyText(pretty, s)
+	err2 = got2.UnmarshalText(pretty)
+	return
+}
+
+// rendering(s, 0) is the digits followed by the unit
+//@ func shapeString
+//@   lemma
+//@   ensures [C04.string] t == decText(shVal(uint64(s))) ++ binUnit(shExp(uint64(s)))
+
+func shapeString(s Size) (t []byte) {
+	return []byte(s.String())
+}
+
+// Stage 3: reading back each of the three JSON forms, stated over any document of that shape ...
+//@ func lemmaJSONNumberRead
+//@   lemma
+//@   requires canonicalNumber(b) && txtOK(b, 0) && mathint(txtValue(b)) == mathint(uint64(s))
+//@   requires MaxInputLength == 0 || len(b) <= MaxInputLength
+//@   requires DefaultRule == RuleEnableJSONStringForm|RuleEnableJSONObjectForm
+//@   ensures [C04.json] err == nil && got == s
+//@ func lemmaJSONStringRead
+//@   lemma
+//@   requires len(b) >= 2 && b[0] == '"' && b[len(b)-1] == '"' && plainText(b[1:len(b)-1])
+//@   requires txtOK(b[1:len(b)-1], 0) && mathint(txtValue(b[1:len(b)-1])) == mathint(uint64(s))
+//@   requires MaxInputLength == 0 || len(b) <= MaxInputLength
+//@   requires DefaultRule == RuleEnableJSONStringForm|RuleEnableJSONObjectForm
+//@   ensures [C04.json] err == nil && got == s
+//@ func lemmaJSONObjectRead
+//@   lemma
+//@   requires b == "{\"value\":" ++ d ++ ",\"unit\":\"" ++ u ++ "\"}" && canonicalNumber(d) && plainText(u)
+//@   requires decOK(d) && sizeOfPair(s, decVal(d), u)
+//@   requires MaxInputLength == 0 || len(b) <= MaxInputLength
+//@   requires DefaultRule == RuleEnableJSONStringForm|RuleEnableJSONObjectForm
+//@   requires MaxObjectKeys == 0 || MaxObjectKeys >= 2
+//@   ensures [C04.json] err == nil && got == s
+
+func lemmaJSONNumberRead(b []byte, s Size) (got Size, err error) {
+	axiomJSONNumber(b)
+	err = got.UnmarshalJSON(b)
+	return got, err
+}
+
+func lemmaJSONStringRead(b []byte, s Size) (got Size, err error) {
+	axiomJSONString(b)
+	err = got.UnmarshalJSON(b)
+	return got, err
+}
+
+func lemmaJSONObjectRead(b, d, u []byte, s Size) (got Size, err error) {
+	axiomJSONObject(b, d, u)
+	err = got.UnmarshalJSON(b)
+	return got, err
+}
+
+// ... and applied to what MarshalJSON emits under each setting of the switches.
+//@ func lemmaC04JSONNumber
+//@   lemma
+//@   requires DisableMarshalJSONObjectForm && DisableMarshalJSONStringForm
+//@   requires MaxInputLength == 0 || MaxInputLength >= 41
+//@   requires DefaultRule == RuleEnableJSONStringForm|RuleEnableJSONObjectForm
+//@   ensures [C04.json] err == nil && got == s
+//@ func lemmaC04JSONString
+//@   lemma
+//@   requires DisableMarshalJSONObjectForm && !DisableMarshalJSONStringForm
+//@   requires MaxInputLength == 0 || MaxInputLength >= 41
+//@   requires DefaultRule == RuleEnableJSONStringForm|RuleEnableJSONObjectForm
+//@   ensures [C04.json] err == nil && got == s
+//@ func lemmaC04JSONObject
+//@   lemma
+//@   requires !DisableMarshalJSONObjectForm
+//@   requires MaxInputLength == 0 || MaxInputLength >= 41
+//@   requires DefaultRule == RuleEnableJSONStringForm|RuleEnableJSONObjectForm
+//@   requires MaxObjectKeys == 0 || MaxObjectKeys >= 2
+//@   ensures [C04.json] err == nil && got == s
+
+func lemmaC04JSONNumber(s Size) (got Size, err error) {
+	b := shapeJSONNumber(s)
+	lemmaDigitsShape(b, uint64(s))
+	number, _ := prepareNumber(string(b))
+	internal.LemmaParseFormat([]byte(number), uint64(s))
+	return lemmaJSONNumberRead(b, s)
+}
+
+func lemmaC04JSONString(s Size) (got Size, err error) {
+	b := shapeJSONString(s)
+	lemmaScalarText(b[1:len(b)-1], s, DisableMarshalTextUnit)
+	return lemmaJSONStringRead(b, s)
+}
+
+func lemmaC04JSONObject(s Size) (got Size, err error) {
+	b := shapeJSONObject(s)
+	v, u := s.Shorten()
+	d := b[9 : len(b)-len(u)-11]
+	lemmaDigitsShape(d, v)
+	internal.LemmaParseFormat(d, v)
+	return lemmaJSONObjectRead(b, d, []byte(u), s)
+}
+
+// cuts: MarshalJSON's postcondition restated for one form at a time
+//@ func shapeJSONNumber
+//@   lemma
+//@   requires DisableMarshalJSONObjectForm && DisableMarshalJSONStringForm
+//@   ensures [C04.json] b == decText(uint64(s))
+//@ func shapeJSONString
+//@   lemma
+//@   requires DisableMarshalJSONObjectForm && !DisableMarshalJSONStringForm
+//@   ensures [C04.json] len(b) >= 3 && len(b) <= 25 && b[0] == '"' && b[len(b)-1] == '"' && b[1:len(b)-1] == decText(textValue(s)) ++ textUnit(s)
+//@   ensures [C04.json] plainText(b[1:len(b)-1])
+//@ func shapeJSONObject
+//@   lemma
+//@   requires !DisableMarshalJSONObjectForm
+//@   ensures [C04.json] b == "{\"value\":" ++ decText(shVal(uint64(s))) ++ ",\"unit\":\"" ++ binUnit(shExp(uint64(s))) ++ "\"}"
+//@   ensures [C04.json] plainText(binUnit(shExp(uint64(s)))) && len(b) <= 41
+
+func shapeJSONNumber(s Size) (b []byte) {
+	b, _ = s.MarshalJSON()
+	return b
+}
+
+func shapeJSONString(s Size) (b []byte) {
+	b, _ = s.MarshalJSON()
+	return b
+}
+
+func shapeJSONObject(s Size) (b []byte) {
+	b, _ = s.MarshalJSON()
+	return b
+}
+
 type verifDerived int16
 type verifDerivedF float32
 
@@ -304,4 +642,3 @@ var _ = []any{unmarshalText[string], unmarshalText[[]byte], DefaultParser[string
 	New[verifDerived], New[verifDerivedF],
 	Bytes[int], Bytes[int8], Bytes[int16], Bytes[int32], Bytes[int64], Bytes[uint], Bytes[uint8], Bytes[uint16], Bytes[uint32], Bytes[uint64], Bytes[float32], Bytes[float64],
 	Bytes[verifDerived], Bytes[verifDerivedF]}
-
